@@ -68,3 +68,66 @@ Theorem C08_files_are_referenced : forall s base text,
   (exists r, In r (t_refs s) /\ s_file r = base) /\ exists e, In e (t_cache s) /\ c_base e = base /\ c_text e = text.
 Proof. exact emit_files_held. Qed.
 Print Assumptions C08_files_are_referenced.
+
+(* ---------------------------------------------------------------------------------------------
+   Program level, on the trace + compile model, for EVERY history of the process and EVERY program of
+   the whole surface language.  A history is any sequence of complete programs (traced and compiled, the
+   compilation possibly raising) and of traces aborted after any number of top-level statements; the
+   FUNCTIONS table is cleared at the start of a compilation (C08_cleared: a fact regenerated from the source).
+   "Nothing belonging to an earlier program appears in a later program's MIR": every operation of the
+   main table and of every function's table, every function, every output's operation, every input and
+   every literal of the MIR is (recorded under) an id above the counter at which this program's trace
+   started, i.e. was recorded by this trace; and the trace changes nothing recorded before. *)
+From Coq Require Import Lia.
+From NadaV.PyMini Require Import PyMini.
+From NadaV.Model Require Import Rules Corr Mir Surface Trace Compile.
+From NadaV.Proofs Require Import ScalarInv CompileProofs C01All C08Program.
+Open Scope Z_scope.
+
+Theorem C08_nothing_from_earlier_programs : forall h p m,
+  run_after GenScalar.G true h p = Ok m ->
+  exists s fns s', after_history GenScalar.G true h init_state [] = Ok (s, fns) /\
+    let lo := counter s in
+    all_new lo (keys (m_ops m))
+    /\ Forall (fun_own lo) (m_functions m)
+    /\ (forall o, In o (m_outputs m) -> lo < o_op o)
+    /\ (forall i, In i (m_inputs m) ->
+          exists k r, lo < k /\ lookup k (store s') = Some r /\ r_node r = AInput (i_name i) (i_party i) (i_doc i))
+    /\ (forall l, In l (m_literals m) ->
+          exists k r, lo < k /\ lookup k (store s') = Some r /\ r_node r = ALiteral (l_value l) (l_name l))
+    /\ (forall k, k <= lo -> lookup k (store s') = lookup k (store s)).
+Proof. exact (after_any_history GenScalar.G). Qed.
+Print Assumptions C08_nothing_from_earlier_programs.
+
+(* the same from any earlier state whatever produced it, as long as it is a state tracing can leave behind *)
+Theorem C08_later_program_owns_its_mir : forall s0 p m s' fs',
+  fresh_store s0 -> ordered s0 ->
+  run_from GenScalar.G s0 [] p = Ok (m, s', fs') ->
+  let lo := counter s0 in
+  all_new lo (keys (m_ops m))
+  /\ Forall (fun_own lo) (m_functions m)
+  /\ (forall i, In i (m_inputs m) ->
+        exists k r, lo < k /\ lookup k (store s') = Some r /\ r_node r = AInput (i_name i) (i_party i) (i_doc i))
+  /\ (forall l, In l (m_literals m) ->
+        exists k r, lo < k /\ lookup k (store s') = Some r /\ r_node r = ALiteral (l_value l) (l_name l))
+  /\ (forall o, In o (m_outputs m) -> lo < o_op o)
+  /\ (forall k, k <= lo -> lookup k (store s') = lookup k (store s0)).
+Proof. exact (later_program_owns_its_mir GenScalar.G). Qed.
+Print Assumptions C08_later_program_owns_its_mir.
+
+Theorem C08_history_states : forall fc h s fns s1 fns1,
+  fresh_store s -> ordered s -> after_history GenScalar.G fc h s fns = Ok (s1, fns1) ->
+  fresh_store s1 /\ ordered s1 /\ counter s <= counter s1.
+Proof. exact (history_states_are_ordered GenScalar.G). Qed.
+Print Assumptions C08_history_states.
+
+(* the premises are met: a program with a function, compiled after a complete program and an aborted trace *)
+Example C08_history_nonvacuous :
+  exists m, run_after GenScalar.G true
+    [ HComplete {| p_stmts := [SLet "a" (RInput "a" "P" "" (IScalar (MSecret, BInt))); SLet "r" (RBin OAdd "a" "a")];
+                   p_outs := [{| out_name := "o"; out_party := "P"; out_var := "r" |}] |};
+      HAbortTrace [SLet "z" (RInput "z" "Q" "" (IScalar (MSecret, BInt))); SLet "k" (RLit BInt 7)] ]
+    {| p_stmts := [SLet "x" (RInput "x" "P" "" (IScalar (MSecret, BInt))); SLet "k" (RLit BInt 7); SLet "y" (RBin OMul "x" "k")];
+       p_outs := [{| out_name := "o"; out_party := "P"; out_var := "y" |}] |} = Ok m
+    /\ map e_key (m_ops m) = [7; 6; 5].
+Proof. eexists. split; vm_compute; reflexivity. Qed.
